@@ -166,6 +166,15 @@ impl Unifiable {
         // Anonymous variable $_ unifies with everything.
         if Unifiable::Anonymous == *other { return Some(Rc::clone(ss)); }
 
+        // The unify method of a function evaluates the function. If only the
+        // other term is a function (3 = add(1, 2)), call its unify method.
+        if let Unifiable::SFunction{name: _, terms: _} = other {
+            match self {
+                Unifiable::SFunction{name: _, terms: _} => {},
+                _ => { return other.unify(self, ss); },
+            }
+        }
+
         match self {
 
             // $_ unifies with everything.
